@@ -1068,9 +1068,11 @@ pub fn gen_schedule(r: &mut Rng, g: &GenCfg, steps: usize, prop: &str, backpress
                             format!("y{}:{}:{}", rid, if is_vec { "v" } else { "t" }, names.iter().map(|n| hex(n.as_bytes())).collect::<Vec<_>>().join("+")),
                         )
                         .await;
-                    } else if r.chance(1, 6) && !sv.out.is_empty() {
-                        // both select! branches ready: request + bytes in the same poll
-                        let k = r.range(1, sv.out.len());
+                    } else if r.chance(1, 3) && !sv.out.is_empty() {
+                        // both select! branches ready: request + bytes in the same poll; half of the
+                        // time the bytes complete the pending reply (a request is then queued at the
+                        // very moment a whole idle reply is handled)
+                        let k = if r.chance(1, 2) { sv.out.len() } else { r.range(1, sv.out.len()) };
                         let v: Vec<u8> = sv.out.drain(..k).collect();
                         do_act(&mut w, &mut sv, &mut actions, format!("b{}:{}:{}", rid, gen_request(r, false), hex(&v))).await;
                     } else {
